@@ -34,6 +34,9 @@ type c11Cycle struct {
 	// Faulted: the sorter's directory is missing during this cycle, so its spills fail; the directory is put back and
 	// Clear called before the next cycle, which is held to the property like any other ("whatever earlier cycles did").
 	Faulted bool `json:"directory_missing_during_this_cycle,omitempty"`
+	// WriteFault > 0: the n-th write to a run file made during this cycle fails (the cycle is then given up: finalised or
+	// not, its errors ignored, Clear called - which must succeed); the cycles after it are judged as always.
+	WriteFault int `json:"failing_run_file_write_of_this_cycle,omitempty"`
 	// Abandoned: the values are pushed and the cycle is given up with Clear, without Finalise (the background writers of a
 	// concurrent sorter may still be at work when Clear is called); the cycles after it are judged as always.
 	Abandoned bool `json:"abandoned_with_clear_before_finalise,omitempty"`
@@ -124,13 +127,20 @@ func c11GenHist(rng *rand.Rand, maxCycles int) c11Hist {
 			}
 		}
 	}
+	if !h.AutoClean && !big {
+		for i := 0; i+1 < len(h.Cycles); i++ {
+			if c := &h.Cycles[i]; !c.Faulted && len(c.Keys) > h.Chunk && rng.Intn(8) == 0 {
+				c.WriteFault = 1 + rng.Intn(len(c.Keys))
+			}
+		}
+	}
 	if h.Struct && !h.AltStruct && rng.Intn(3) == 0 {
 		h.Elem = []string{"gob-registered", "gob-registered-by-name", "rich"}[rng.Intn(3)]
 	}
 	h.ReuseDest = rng.Intn(2) == 0
 	for i := range h.Cycles {
 		c := &h.Cycles[i]
-		if c.Abandoned || c.Faulted {
+		if c.Abandoned || c.Faulted || c.WriteFault > 0 {
 			continue
 		}
 		if rng.Intn(8) == 0 {
@@ -192,6 +202,7 @@ type c11Result struct {
 	spills       int
 	memCycles    int
 	pulls        int
+	writeFaulted int    // cycles in which a write to a run file was made to fail
 	abandoned    int    // cycles given up with Clear before Finalise
 	abandonedDir bool   // ... in a history whose directory is inspected (C13)
 	faulted      int    // cycles run with the directory missing
@@ -228,6 +239,32 @@ func c11RunOn(h c11Hist, m *morass.Morass, sorterDir string, checkResidue bool) 
 	for ci, cyc := range h.Cycles {
 		when := func(s string) string {
 			return fmt.Sprintf("cycle %d (%d pushes, chunk %d): %s", ci, len(cyc.Keys), h.Chunk, s)
+		}
+		if cyc.WriteFault > 0 && !cyc.Faulted {
+			// a cycle in which a write to a run file fails (its errors are C13's business); given up with Clear, after
+			// Finalise or - when the cycle is an abandoned one - with background writers possibly still at work
+			var nw int64
+			morass.VerifSetWrap(func(f *os.File) (io.Writer, io.Reader) {
+				return c11FailWriter{f, &nw, int64(cyc.WriteFault)}, f
+			})
+			for _, k := range cyc.Keys {
+				if err := m.Push(el.mk(k, -3)); err != nil {
+					break
+				}
+			}
+			if !cyc.Abandoned {
+				m.Finalise()
+			}
+			err := m.Clear()
+			morass.VerifSetWrap(nil)
+			if err != nil {
+				return fail("clear-error", when(fmt.Sprintf("Clear after a cycle whose write #%d to a run file failed returned %v", cyc.WriteFault, err)))
+			}
+			if m.Len() != 0 || m.Pos() != 0 {
+				return fail("pos-len", when(fmt.Sprintf("after Clear Pos=%d Len=%d", m.Pos(), m.Len())))
+			}
+			res.writeFaulted++
+			continue
 		}
 		if cyc.Abandoned && !cyc.Faulted {
 			for i, k := range cyc.Keys {
@@ -527,6 +564,12 @@ func c11Case(r *obs.Run, i int) {
 				h2.Chunk = 64
 			}
 			pair = &h2
+			for k := range h.Cycles { // the write-fault hook is process-wide: not while two sorters are at work
+				h.Cycles[k].WriteFault = 0
+			}
+			for k := range pair.Cycles {
+				pair.Cycles[k].WriteFault = 0
+			}
 		}
 	}
 	scratch := c11Scratch(r)
@@ -596,6 +639,7 @@ func c11Case(r *obs.Run, i int) {
 	r.Count("histories", 1)
 	r.Count("cycles_spilled", int64(res.spills))
 	r.Count("earlier_cycles_abandoned_before_finalise", int64(res.abandoned))
+	r.Count("earlier_cycles_with_a_failing_run_file_write", int64(res.writeFaulted))
 	r.Count("earlier_cycles_with_failed_spills", int64(res.faulted))
 	r.Count("earlier_cycles_with_failed_spills_that_reported_an_error", int64(res.faultedSeen))
 	r.Count("cycles_in_memory", int64(res.memCycles))
